@@ -2,7 +2,7 @@
 // sanitizers on) on hex-encoded inputs.
 // stdin : "<options> <hex bytes>"    options = "-" or letters toggling CxxTokenizerOptions fields
 // stdout: "ok c=<0|1> r=<0|1> d=<hex>|<tokens>|<tokens after stripComments>|<comments map>|<numbers>"
-//         or "err <line> <hex of message>"; token = flag,line,offset,hex(value),hex(comment)
+//         or "err <hex of what()> e=<empty><c><r>"; token = flag,line,offset,hex(value),hex(comment)
 // A CPU-time watchdog (2 s per input) prints "HANG" and exits with status 3.
 #include <csignal>
 #include <cstdint>
@@ -49,6 +49,10 @@ static bool unhex(const std::string& h, std::string& out) {
   }
   return true;
 }
+
+static void arm(const int);
+// AddressSanitizer calls this hook when it detects an error: its report must not be cut by the watchdog
+extern "C" void __asan_on_error() { arm(0); }
 
 static void on_alarm(int) {
   const char m[] = "HANG\n";
@@ -121,21 +125,8 @@ int main() {
       t.parseString(in);
     } catch (std::exception& e) {
       arm(0);
-      const std::string w = e.what();
-      const std::string mk = ".\nError at line: ";
-      const auto pos = w.find(mk);
-      if (pos == std::string::npos) {
-        std::cout << "err ? " << hex(w) << std::endl;
-      } else {
-        std::size_t q = pos + mk.size();
-        std::string n;
-        while (q < w.size() && w[q] >= '0' && w[q] <= '9') n += w[q++];
-        const bool tail = w.compare(q, 12, " of string '") == 0 && w.size() == q + 12 + in.size() + 1 &&
-                          w.compare(q + 12, in.size(), in) == 0;
-        std::cout << "err " << n << (tail ? " " : " badtail ") << hex(w.substr(0, pos))
-                  << " e=" << (t.empty() ? 1 : 0) << (t.isCStyleCommentOpened() ? 1 : 0)
-                  << (t.isRawStringOpened() ? 1 : 0) << std::endl;
-      }
+      std::cout << "err " << hex(e.what()) << " e=" << (t.empty() ? 1 : 0)
+                << (t.isCStyleCommentOpened() ? 1 : 0) << (t.isRawStringOpened() ? 1 : 0) << std::endl;
       continue;
     }
     os << "ok c=" << (t.isCStyleCommentOpened() ? 1 : 0) << " r=" << (t.isRawStringOpened() ? 1 : 0)
